@@ -866,6 +866,8 @@ class PSFPhotFamily:
                     cols.append('group_id')
                 if rng.chance(0.3):
                     cols.append('local_bkg')
+                if rng.chance(0.25):
+                    cols.append('id')       # the caller's own numbering
                 init = {'cols': cols, 'reverse': rng.chance(0.3),
                         'masked_source': rng.chance(0.1),
                         'masked_index': rng.randrange(6),
@@ -908,6 +910,10 @@ class PSFPhotFamily:
                 t['group_id'] = [1 + (k % 2) for k in range(len(rows))]
             if 'local_bkg' in cols:
                 t['local_bkg'] = [0.1 * k for k in range(len(rows))]
+            if 'id' in cols:
+                # 1..N in another order (rotated by one)
+                n = len(rows)
+                t['id'] = [(k + 1) % n + 1 for k in range(n)]
             init = t
             # faults inside the fit loop: a completely masked source or a
             # zero error pixel at one of the *later* sources makes the call
